@@ -35,6 +35,7 @@ type connSite struct {
 	ok        bool
 	msg       string
 	witness   []string
+	req       string // for kind "call"/"root": the kind of the underlying requirement ("fd", "cb", "fd+cb")
 }
 
 type connUnit struct {
@@ -47,9 +48,9 @@ type connUnit struct {
 }
 
 type connResult struct {
-	sites    []connSite          // evaluated with entry LIVE = true (genuine internal failures have ok=false)
-	requires map[*types.Func]map[int]bool
-	rootReq  []connSite          // requirement at a root (function used as a value / literal) – entry-attributable failures
+	sites    []connSite                     // evaluated with entry LIVE = true (genuine internal failures have ok=false)
+	requires map[*types.Func]map[int]string // param index -> "fd", "cb" or "fd+cb"
+	rootReq  []connSite                     // requirement at a root (function used as a value / literal) – entry-attributable failures
 	units    int
 }
 
@@ -75,7 +76,7 @@ func connStateOf(c *core.Ctx, v *vocab) *connResult {
 	if r, ok := connCache[c.P]; ok {
 		return r
 	}
-	res := &connResult{requires: map[*types.Func]map[int]bool{}}
+	res := &connResult{requires: map[*types.Func]map[int]string{}}
 	connCache[c.P] = res
 
 	var units []*connUnit
@@ -124,10 +125,11 @@ func connStateOf(c *core.Ctx, v *vocab) *connResult {
 				if !s.ok && !bad1[s.construct] && s.v != nil {
 					if idx, isParam := u.params[s.v]; isParam {
 						if res.requires[u.decl] == nil {
-							res.requires[u.decl] = map[int]bool{}
+							res.requires[u.decl] = map[int]string{}
 						}
-						if !res.requires[u.decl][idx] {
-							res.requires[u.decl][idx] = true
+						nk := mergeReqKind(res.requires[u.decl][idx], s.reqKind())
+						if res.requires[u.decl][idx] != nk {
+							res.requires[u.decl][idx] = nk
 							changed = true
 						}
 					}
@@ -184,7 +186,11 @@ func connStateOf(c *core.Ctx, v *vocab) *connResult {
 		if u.decl != nil {
 			if req := res.requires[u.decl]; len(req) > 0 {
 				if pos, isVal := usedAsValue[u.decl.Origin()]; isVal {
-					res.rootReq = append(res.rootReq, connSite{unit: u.name, construct: "entry: conn must be live", pos: pos, kind: "root",
+					rk := ""
+					for _, k := range req {
+						rk = mergeReqKind(rk, k)
+					}
+					res.rootReq = append(res.rootReq, connSite{unit: u.name, construct: "entry: conn must be live", pos: pos, kind: "root", req: rk,
 						msg: u.name + " uses the descriptor of its conn argument before establishing that the connection is still open, and it is used as a task/poll callback (its caller cannot vouch for the conn)"})
 				}
 			}
@@ -199,6 +205,7 @@ func connStateOf(c *core.Ctx, v *vocab) *connResult {
 			}
 			for _, s := range s0 {
 				if !s.ok && !bad1[s.construct] {
+					s.req = s.reqKind()
 					s.kind = "root"
 					res.rootReq = append(res.rootReq, s)
 				}
@@ -210,7 +217,32 @@ func connStateOf(c *core.Ctx, v *vocab) *connResult {
 }
 
 // analyseConnUnit runs the typestate on one body and returns its sites.
-func analyseConnUnit(v *vocab, u *connUnit, entryLive bool, requires map[*types.Func]map[int]bool) []connSite {
+func mergeReqKind(a, b string) string {
+	fd := strings.Contains(a, "fd") || strings.Contains(b, "fd")
+	cb := strings.Contains(a, "cb") || strings.Contains(b, "cb")
+	switch {
+	case fd && cb:
+		return "fd+cb"
+	case fd:
+		return "fd"
+	case cb:
+		return "cb"
+	}
+	return ""
+}
+
+// reqKind: what kind of requirement a failing site stands for.
+func (s connSite) reqKind() string {
+	switch s.kind {
+	case "cb":
+		return "cb"
+	case "call", "root":
+		return s.req
+	}
+	return "fd"
+}
+
+func analyseConnUnit(v *vocab, u *connUnit, entryLive bool, requires map[*types.Func]map[int]string) []connSite {
 	f := u.f
 	info := f.Info
 	// collect conn variables mentioned in the body
@@ -359,7 +391,7 @@ func analyseConnUnit(v *vocab, u *connUnit, entryLive bool, requires map[*types.
 				if cf := flow.CalleeFunc(info, e); cf != nil && v.byObj[cf] != nil {
 					if req := requires[cf]; len(req) > 0 {
 						check := func(arg ast.Expr, k int) {
-							if !req[k] || arg == nil {
+							if req[k] == "" || arg == nil {
 								return
 							}
 							if vv, ok := connVarOf(arg); ok {
@@ -367,9 +399,12 @@ func analyseConnUnit(v *vocab, u *connUnit, entryLive bool, requires map[*types.
 								good := in&(live(i)|closing(i)) != 0 && in&notClosed(i) != 0
 								msg := "conn known open at call"
 								if !good {
-									msg = core.FuncName(cf) + " uses the descriptor of its conn before any liveness check, but " + vv.Name() + " may have been closed by a user callback or close on this path"
+									msg = core.FuncName(cf) + " uses the descriptor of / runs a handler callback on its conn before any liveness check, but " + vv.Name() + " may have been closed by a user callback or close on this path"
 								}
 								addSite("call", "call "+core.FuncName(cf)+" with "+vv.Name(), vv, e.Pos(), good, msg)
+								if record && len(sites) > 0 {
+									sites[len(sites)-1].req = req[k]
+								}
 							}
 						}
 						check(flow.Recv(e), -1)
